@@ -121,6 +121,13 @@ type stateView struct {
 	r *replica
 }
 
+func (v stateView) hasCode(a common.Address) bool {
+	st, err := v.r.bc.State()
+	if err != nil {
+		panic(err)
+	}
+	return st.GetCodeSize(a) > 0
+}
 func (v stateView) nonce(a common.Address) uint64 {
 	st, err := v.r.bc.State()
 	if err != nil {
@@ -237,9 +244,10 @@ func (s *scenario) produce(res *mbt.Result) (*produced, error) {
 	g := &gen{rng: rng, s: s, self: -1}
 	lastCommit := types.NewCommit(0, 0, types.BlockID{}, nil)
 	nEvidence := 0 // a chain that slashes all its validators ends early
+	followUp := false
 	for h := uint64(1); h <= uint64(s.p.Blocks); h++ {
 		signer := types.MakeSigner(p.bc.Config(), &h)
-		tg := &txGen{rng: rng, s: s, g: g, signer: signer, next: map[common.Address]uint64{}}
+		tg := &txGen{rng: rng, s: s, g: g, signer: signer, next: map[common.Address]uint64{}, legacy: !p.bc.Config().IsGalaxias(&h)}
 		handMade := rng.Intn(5) < 2
 		n := rng.Intn(9)
 		if rng.Intn(10) == 0 {
@@ -249,10 +257,32 @@ func (s *scenario) produce(res *mbt.Result) (*produced, error) {
 			n = 0 // a long chain: mostly empty blocks, transactions at the end
 		}
 		var txs []genTx
+		if followUp {
+			// the previous block destroyed the victim and reverted its re-creation: read it now
+			txs, followUp = append(txs, tg.readers(view)...), false
+		}
+		single := len(txs) == 0 && rng.Intn(8) == 0 && !(s.p.Long && h+8 < uint64(s.p.Blocks))
+		if single {
+			// a block whose ONLY transaction calls a precompile / non-existent address: nothing else finalises its accounts
+			n = 0
+			tg2 := *tg
+			for try := 0; try < 40; try++ {
+				if t := tg2.one(view, false); t.kind == "precompile-call" {
+					txs = append(txs, t)
+					break
+				}
+				tg2.next = map[common.Address]uint64{}
+			}
+		}
 		for i := 0; i < n; i++ {
 			txs = append(txs, tg.one(view, handMade))
 			if rng.Intn(12) == 0 {
 				txs = append(txs, tg.resurrection(view)...)
+			}
+			if rng.Intn(10) == 0 && !followUp {
+				var seq []genTx
+				seq, followUp = tg.destructRevert(view)
+				txs = append(txs, seq...)
 			}
 		}
 		var kinds []string
